@@ -168,3 +168,40 @@ tracker_harness!(c15_step_u16_m9, c15_fresh_u16_m9, u16, 9, 19);
 tracker_harness!(c15_step_u16_m12, c15_fresh_u16_m12, u16, 12, 25);
 tracker_harness!(c15_step_u64_m5, c15_fresh_u64_m5, u64, 5, 11);
 tracker_harness!(c15_step_f32_m3, c15_fresh_f32_m3, f32, 3, 7);
+
+// ---- helpers for the harness modules of the sketchers that own a tracker -------------------
+/// arbitrary content, no invariant (for reset checks)
+pub(crate) fn garbage_tracker_f64(m: usize) -> MaxValueTracker<f64> {
+    let mut t = MaxValueTracker::<f64>::new(m);
+    for i in 0..(2 * m - 1) {
+        t.values[i] = kani::any();
+    }
+    t
+}
+pub(crate) fn is_all_max_f64(t: &MaxValueTracker<f64>, m: usize) -> bool {
+    let mut ok = t.m == m && t.last_index == 2 * m - 2 && t.values.len() == 2 * m - 1;
+    if ok {
+        for i in 0..(2 * m - 1) {
+            ok = ok && t.values[i] == f64::MAX;
+        }
+    }
+    ok
+}
+/// arbitrary tracker state satisfying the invariant (leaves arbitrary non-NaN)
+pub(crate) fn any_tracker_f64(m: usize) -> MaxValueTracker<f64> {
+    any_tracker::<f64>(m)
+}
+pub(crate) fn tracker_inv_f64(t: &MaxValueTracker<f64>) -> bool {
+    inv_holds(t)
+}
+pub(crate) fn set_leaf_f64(t: &mut MaxValueTracker<f64>, i: usize, v: f64) {
+    t.values[i] = v;
+}
+/// recompute the inner nodes from the leaves
+pub(crate) fn rebuild_f64(t: &mut MaxValueTracker<f64>) {
+    let m = t.m;
+    for p in m..(2 * m - 1) {
+        let c = 2 * (p - m);
+        t.values[p] = vmax(t.values[c], t.values[c + 1]);
+    }
+}
